@@ -30,7 +30,7 @@ class RefLALR:
 
     MAX_REDUCES = 5000      # consecutive reductions on one lookahead; far beyond any finite chain of these automata
 
-    def __init__(self, prods, starts, cap=3000):
+    def __init__(self, prods, starts, cap=3000, terminals=()):
         self.starts = list(starts)
         self.prods = []
         for s in self.starts:
@@ -44,7 +44,7 @@ class RefLALR:
             self.by_lhs.setdefault(p.lhs, []).append(p)
         for p in self.prods:
             for s in p.rhs:
-                if s not in self.nts and not (s.isupper() or s == END):
+                if s not in self.nts and not (s in terminals or s.isupper() or s == END):
                     # a lower-case name without productions: an undefined rule
                     raise ValueError('undefined non-terminal %r' % s)
         self.terms = sorted({s for p in self.prods for s in p.rhs if s not in self.nts})
@@ -346,4 +346,5 @@ def from_lark_rules(rules, starts, cap=3000):
     prods = []
     for r in rules:
         prods.append((r.origin.name, [s.name for s in r.expansion], (r.options.priority if r.options else None) or 0, r))
-    return RefLALR(prods, starts, cap)
+    # terminal-ness is taken from the symbols, not guessed from the spelling ("__", m__NAME are terminals)
+    return RefLALR(prods, starts, cap, terminals={s.name for r in rules for s in r.expansion if s.is_term})
